@@ -769,7 +769,7 @@ def replay_vectors(ctx, sts):
     grp = {}
     for s in sts:
         op = s["op"]
-        key = "vel" if op in ("VelInput", "VelReset") else ("RateStep" if op == "RateAny" else op)
+        key = "vel" if op in ("VelInput", "VelReset") else ("RateStep" if op == "RateAny" else ("PosStep" if op == "PosAny" else op))
         grp.setdefault(key, []).append(s)
     out = {"excluded_att": 0}
     if "RateStep" in grp:
